@@ -179,3 +179,16 @@ Theorem C01_separators_weaker :
   forall (lead : ws) (l : list (sjson * ws)), stream_wf lead l -> stream_wf' lead l.
 Proof. exact stream_wf_weaker. Qed.
 Print Assumptions C01_separators_weaker.
+
+(* the default configuration over any list of inputs *)
+From Jawk Require Import Base F64 Json Reader JsonParser Ctx Printer Fn Expr Chain ExprParser Go PipelineSpec OrderProofs SorterProofs ChainProofs GoProofs BuildProofs FilesProofs LocalFilesProofs.
+
+(* no options, any list of inputs without read errors: success, and exactly one one-line row per value of every input, in order *)
+Theorem C01_rows_files :
+  forall (ins : list (option str * list ev)) (b : bool),
+    Forall (fun i : option str * list ev => Forall (fun e : ev => e <> EErr) (snd i)) ins ->
+    g_result (go default_cfg ins b) = GOk /\
+    g_events (go default_cfg ins b) =
+    emit default_cfg (PJson OneLine false) 0 (fst (ctxs_of_inputs default_cfg ins 0)).
+Proof. exact go_default_rows_files. Qed.
+Print Assumptions C01_rows_files.
